@@ -381,4 +381,358 @@ theorem nNodes_le (es : List E) (c : Nat) (hc : 0 < c) (h : ∀ e ∈ es, e.1 < 
     simp only [List.foldr_cons]
     omega
 
+/-! ### the solver call -/
+
+theorem fromEdgeList_fin (es : List Edge) (s t : Nat) (d : Dinic) (h : Dinic.fromEdgeList es s t = some d) :
+    d.finished = false := by
+  unfold Dinic.fromEdgeList at h
+  split at h
+  · cases h
+  · cases h; rfl
+
+/-- `run_with_upper_bound`: either aborted (`finished` stays false, bound untouched) or the result of
+    the unbounded `run`, with the bound lowered to the flow -/
+theorem runBounded_spec (d : Dinic) (hf : d.finished = false) (fuel : Nat) (bound : Int) (d' : Dinic)
+    (b' : Int) (h : runBounded d fuel bound = some (d', b')) :
+    (d'.finished = false ∧ b' = bound) ∨
+    (d'.finished = true ∧ d.run fuel = some d' ∧ b' = min bound d'.maxFlow ∧
+      (0 ≤ bound → d'.maxFlow ≤ bound)) := by
+  unfold runBounded at h
+  simp only at h
+  split at h
+  · cases h
+  · rename_i hg
+    split at h
+    · cases h
+    · rename_i dl flow hl
+      simp only [Option.some.injEq, Prod.mk.injEq] at h
+      obtain ⟨rfl, rfl⟩ := h
+      left
+      have := boundedLoop_fin _ _ _ _ _ _ _ hl
+      exact ⟨by show dl.finished = false; rw [this]; exact hf, rfl⟩
+    · rename_i dl flow hl
+      simp only [Option.some.injEq, Prod.mk.injEq] at h
+      obtain ⟨rfl, rfl⟩ := h
+      right
+      refine ⟨rfl, ?_, rfl, ?_⟩
+      · unfold Dinic.run
+        simp only
+        rw [if_neg hg, boundedLoop_ok_run _ _ _ _ _ _ hl]
+      · intro hb
+        exact boundedLoop_ok_le _ _ _ _ _ _ hb hl
+
+theorem solve_ok (p : Prep) (bound : Int) (flow : Int) (bits : Array Bool) (b' : Int)
+    (h : solve p bound = some (some (flow, bits), b')) :
+    (p.edges = [] ∧ flow = 0 ∧ bits = #[true] ∧ b' = min bound 0) ∨
+    (p.edges ≠ [] ∧ ∃ d d', Dinic.fromEdgeList p.edges 0 1 = some d ∧
+      d.run (phaseFuel p) = some d' ∧ d'.maxFlow = flow ∧ d'.assignment? 0 = .ok bits ∧
+      b' = min bound flow ∧ (0 ≤ bound → flow ≤ bound)) := by
+  unfold solve at h
+  split at h
+  · rename_i he
+    simp only [Option.some.injEq, Prod.mk.injEq] at h
+    obtain ⟨⟨rfl, rfl⟩, rfl⟩ := h
+    left
+    exact ⟨by simpa using he, rfl, rfl, rfl⟩
+  · rename_i he
+    right
+    refine ⟨by simpa using he, ?_⟩
+    split at h
+    · cases h
+    · rename_i d hd
+      split at h
+      · cases h
+      · rename_i d' bnd hr
+        rcases runBounded_spec d (fromEdgeList_fin _ _ _ _ hd) _ _ _ _ hr with ⟨hf, _⟩ | ⟨hf, hrun, hb, hle⟩
+        · have : d'.maxFlow? = .err := by unfold Dinic.maxFlow? maxFlowOut; simp [hf]
+          rw [this] at h
+          simp at h
+        · have hmf : d'.maxFlow? = .ok d'.maxFlow := by unfold Dinic.maxFlow? maxFlowOut; simp [hf]
+          rw [hmf] at h
+          simp only at h
+          split at h
+          · rename_i bits' ha
+            simp only [Option.some.injEq, Prod.mk.injEq] at h
+            obtain ⟨⟨rfl, rfl⟩, rfl⟩ := h
+            exact ⟨d, d', hd, hrun, rfl, ha, hb, hle⟩
+          · cases h
+
+/-- no edge between two different contracted nodes: every side has cut 0, and the side {0} is the
+    canonical minimum cut -/
+theorem mincut_of_empty (ρ : Nat → Nat) (edges : List (Nat × Nat)) (cell : List Nat) (dom : Nat → Bool)
+    (inA : Nat → Bool) (he : contractBy ρ edges = []) (h0 : inA 0 = true)
+    (hA : ∀ p, inA p = true → p = 0) : MinCut edges cell ρ dom 0 inA := by
+  refine ⟨h0, ?_, ?_, ?_, ?_⟩
+  · cases h : inA 1 with
+    | false => rfl
+    | true => have := hA 1 h; omega
+  · rw [cutE_zero_of_empty ρ edges he]; rfl
+  · intro inS _ _; rw [cutE_zero_of_empty ρ edges he]; exact Int.le_refl _
+  · intro inS a _ _ x _ _ hx
+    rw [hA _ hx]; exact a
+
+/-- **the model of `sub_step` satisfies the property's statement** (relative to C01/C02 for the Dinic
+    model, which are proved: `Tbx.Flow.dinic_assignment`).  Hypotheses = the property's quantifier
+    (`preOK`: distinct ids, n ≥ 2, 1 ≤ k, 2k ≤ n, edge sources in the cell) and that node numbers stay
+    below usize::MAX -/
+theorem subStepSorted_valid (edges : List (Nat × Nat)) (sorted : List Nat) (k : Nat) (bound : Int)
+    (hpre : preOK edges sorted k = true) (hsz : 2 * edges.length + 6 < INV) (r : FlowRes)
+    (h : subStepSorted edges sorted k bound = .ok r) :
+    Valid edges sorted k r.flow r.left r.right := by
+  have hpre' := hpre
+  simp only [preOK, Bool.and_eq_true, decide_eq_true_eq, List.all_eq_true, List.contains_iff_mem] at hpre'
+  obtain ⟨⟨⟨⟨hnd, hn⟩, hk1⟩, hk2⟩, hsrc⟩ := hpre'
+  have hdisj := take_drop_disjoint sorted k hnd hk2
+  have hc := prep_contr edges sorted k hpre
+  obtain ⟨tw, _, _, hcur⟩ := prep_table edges sorted k hdisj
+  have hedges := prep_edges edges sorted k hdisj
+  unfold subStepSorted subStepSortedB at h
+  have hk : ¬ (k = 0 ∨ sorted.length < k) := by omega
+  rw [if_neg hk] at h
+  simp only at h
+  split at h
+  · cases h
+  · cases h
+  · rename_i flow bits b' hs
+    split at h
+    · cases h
+    · simp only [StepOut.ok.injEq] at h
+      subst h
+      simp only
+      have hl := partitionIds_left (prep edges sorted k).table bits sorted
+      have hr := partitionIds_right (prep edges sorted k).table bits sorted
+      have hm : MinCut edges sorted (prep edges sorted k).table.get (prep edges sorted k).table.containsKey
+          flow (sideBit bits) := by
+        rcases solve_ok _ _ _ _ _ hs with ⟨he, rfl, rfl, _⟩ | ⟨hne, d, d', hd, hrun, hflow, hbits, _, _⟩
+        · apply mincut_of_empty
+          · rw [← hedges, he]; rfl
+          · decide
+          · intro p hp
+            simp only [sideBit, Bool.and_eq_true, decide_eq_true_eq] at hp
+            have : (#[true] : Array Bool).size = 1 := rfl
+            omega
+        · -- ids of the flow graph are below current_id
+          have hids : ∀ e ∈ (prep edges sorted k).edges.map toE, e.1 < (prep edges sorted k).curId ∧
+              e.2.1 < (prep edges sorted k).curId := by
+            intro e he
+            rw [hedges] at he
+            unfold contractBy at he
+            simp only [List.mem_map, List.mem_filter] at he
+            obtain ⟨e0, ⟨he0, _⟩, rfl⟩ := he
+            obtain ⟨hd1, hd2⟩ := dom_of_edge hc he0
+            obtain ⟨q1, hq1⟩ := (containsKey_iff _ _).mp hd1
+            obtain ⟨q2, hq2⟩ := (containsKey_iff _ _).mp hd2
+            simp only
+            rw [get_of_find hq1, get_of_find hq2]
+            exact ⟨tw.lt _ _ hq1, tw.lt _ _ hq2⟩
+          have hnn : nNodes ((prep edges sorted k).edges.map toE) ≤ (prep edges sorted k).curId :=
+            nNodes_le _ _ (by have := tw.cur2; omega) hids
+          have hcap : ∀ e, e ∈ (prep edges sorted k).edges → 0 ≤ e.cap := by
+            intro e he
+            have : toE e ∈ (prep edges sorted k).edges.map toE := List.mem_map_of_mem he
+            rw [hedges] at this
+            unfold contractBy at this
+            simp only [List.mem_map] at this
+            obtain ⟨e0, _, he0⟩ := this
+            have : e.cap = 1 := by
+              have := congrArg (·.2.2) he0
+              simpa [toE] using this.symm
+            omega
+          obtain ⟨hs0, ht1, hsize, h0, h1, hval, _, hmin, hcan⟩ :=
+            dinic_assignment (prep edges sorted k).edges 0 1 hcap (by omega) (by omega) d hd _ d' hrun bits hbits
+          rw [hflow] at hval hcan
+          have hm := mincut_of_finset' (prep edges sorted k).table.get edges sorted
+            (prep edges sorted k).table.containsKey flow (fun v => gt bits v)
+            ((prep edges sorted k).edges.map toE) hedges.symm hs0 ht1 h0 h1 hval hmin hcan
+          have hsb : sideBit bits = fun p =>
+              decide (p < nNodes ((prep edges sorted k).edges.map toE)) && gt bits p := by
+            funext p; unfold sideBit; rw [hsize]
+          rw [hsb]; exact hm
+      exact valid_of_mincut hc hm k rfl rfl _ _ hl hr
+
+/-! ### the bound only decides between Ok and Err -/
+
+/-- **`run_with_upper_bound` with a bound that is at least the final flow is the unbounded `run`**
+    (and publishes the flow) -/
+theorem runBounded_of_run (es : List Edge) (s t : Nat) (hnn : ∀ e, e ∈ es → 0 ≤ e.cap) (hst : s ≠ t)
+    (hN : nNodes (es.map toE) + 2 < INV) (d : Dinic) (hd : Dinic.fromEdgeList es s t = some d)
+    (fuel : Nat) (d' : Dinic) (h : d.run fuel = some d') (bound : Int) (hle : d'.maxFlow ≤ bound) :
+    runBounded d fuel bound = some (d', min bound d'.maxFlow) := by
+  unfold Dinic.fromEdgeList at hd
+  split at hd
+  · cases hd
+  · simp only [Option.some.injEq] at hd
+    subst hd
+    have hm := merge_cap_dinic es hnn
+    have hnum : (residualDinic es).numNodes = nNodes (es.map toE) := by rw [hm.2.1, maxId_eq_spec]; rfl
+    unfold Dinic.run at h
+    unfold runBounded
+    simp only at h ⊢
+    split at h
+    · cases h
+    · rename_i hg
+      rw [if_neg hg]
+      have hguard : s < nNodes (es.map toE) ∧ t < nNodes (es.map toE) := by
+        have : ¬ (s ≥ (residualDinic es).numNodes ∨ t ≥ (residualDinic es).numNodes) := hg
+        rw [hnum] at this; omega
+      have hfi := init_finv (residualDinic es) es ⟨s, hguard.1⟩ ⟨t, hguard.2⟩ hm
+      obtain ⟨huq, hrc⟩ := residualDinic_uniq_rev es
+      split at h
+      · cases h
+      · rename_i d1 flow hloop
+        simp only [Option.some.injEq] at h
+        subst h
+        have hdl : DL (cF (es.map toE) (nNodes (es.map toE))) ⟨s, hguard.1⟩ ⟨t, hguard.2⟩
+            { g := residualDinic es, maxFlow := 0, finished := false,
+              level := Array.replicate (residualDinic es).numNodes INV,
+              parents := Array.replicate (residualDinic es).numNodes 0, stack := [], dfsCount := 0,
+              bfsCount := 0, source := s, target := t } 0 :=
+          ⟨hfi, huq, hrc, rfl, rfl, by simp [hnum], by simp [hnum]⟩
+        obtain ⟨a, _⟩ := boundedLoop_of_dinicLoop (fun e => hst (Fin.mk.inj e)) hN bound fuel _ 0 0 d1 flow
+          hdl hloop hle
+        rw [a]
+
+/-- what the solver needs to know about the renumbered edge list -/
+theorem prep_solver_pre (edges : List (Nat × Nat)) (sorted : List Nat) (k : Nat)
+    (hpre : preOK edges sorted k = true) (hsz : 2 * edges.length + 6 < INV) :
+    (∀ e, e ∈ (prep edges sorted k).edges → 0 ≤ e.cap) ∧
+    nNodes ((prep edges sorted k).edges.map toE) + 2 < INV := by
+  have hpre' := hpre
+  simp only [preOK, Bool.and_eq_true, decide_eq_true_eq, List.all_eq_true, List.contains_iff_mem] at hpre'
+  obtain ⟨⟨⟨⟨hnd, hn⟩, hk1⟩, hk2⟩, hsrc⟩ := hpre'
+  have hdisj := take_drop_disjoint sorted k hnd hk2
+  have hc := prep_contr edges sorted k hpre
+  obtain ⟨tw, _, _, hcur⟩ := prep_table edges sorted k hdisj
+  have hedges := prep_edges edges sorted k hdisj
+  have hids : ∀ e ∈ (prep edges sorted k).edges.map toE, e.1 < (prep edges sorted k).curId ∧
+      e.2.1 < (prep edges sorted k).curId := by
+    intro e he
+    rw [hedges] at he
+    unfold contractBy at he
+    simp only [List.mem_map, List.mem_filter] at he
+    obtain ⟨e0, ⟨he0, _⟩, rfl⟩ := he
+    obtain ⟨hd1, hd2⟩ := dom_of_edge hc he0
+    obtain ⟨q1, hq1⟩ := (containsKey_iff _ _).mp hd1
+    obtain ⟨q2, hq2⟩ := (containsKey_iff _ _).mp hd2
+    simp only
+    rw [get_of_find hq1, get_of_find hq2]
+    exact ⟨tw.lt _ _ hq1, tw.lt _ _ hq2⟩
+  have hnn : nNodes ((prep edges sorted k).edges.map toE) ≤ (prep edges sorted k).curId :=
+    nNodes_le _ _ (by have := tw.cur2; omega) hids
+  refine ⟨?_, by omega⟩
+  intro e he
+  have : toE e ∈ (prep edges sorted k).edges.map toE := List.mem_map_of_mem he
+  rw [hedges] at this
+  unfold contractBy at this
+  simp only [List.mem_map] at this
+  obtain ⟨e0, _, he0⟩ := this
+  have : e.cap = 1 := by
+    have := congrArg (·.2.2) he0
+    simpa [toE] using this.symm
+  omega
+
+/-- the solver call does not depend on the bound as long as the bound is at least the flow -/
+theorem solve_bound_irrelevant (edges : List (Nat × Nat)) (sorted : List Nat) (k : Nat)
+    (hpre : preOK edges sorted k = true) (hsz : 2 * edges.length + 6 < INV) (b b' b1 : Int) (flow : Int)
+    (bits : Array Bool) (h : solve (prep edges sorted k) b = some (some (flow, bits), b1))
+    (hle : flow ≤ b') :
+    solve (prep edges sorted k) b' = some (some (flow, bits), min b' flow) := by
+  rcases solve_ok _ _ _ _ _ h with ⟨he, rfl, rfl, _⟩ | ⟨hne, d, d', hd, hrun, hflow, hbits, _, _⟩
+  · unfold solve; simp [he]
+  · obtain ⟨hcap, hN⟩ := prep_solver_pre edges sorted k hpre hsz
+    have hrb := runBounded_of_run _ 0 1 hcap (by omega) hN d hd _ d' hrun b' (by rw [hflow]; exact hle)
+    have hfin : d'.finished = true := by
+      rcases runBounded_spec d (fromEdgeList_fin _ _ _ _ hd) _ _ _ _ hrb with ⟨hf, hb⟩ | ⟨hf, _⟩
+      · exfalso
+        unfold Dinic.run at hrun
+        simp only at hrun
+        split at hrun
+        · cases hrun
+        · split at hrun
+          · cases hrun
+          · cases hrun; cases hf
+      · exact hf
+    unfold solve
+    have hne' : (prep edges sorted k).edges.isEmpty = false := by
+      cases h' : (prep edges sorted k).edges with
+      | nil => exact absurd h' hne
+      | cons _ _ => rfl
+    simp only [hne', Bool.false_eq_true, ↓reduceIte, hd, hrb]
+    have hmf : d'.maxFlow? = .ok d'.maxFlow := by unfold Dinic.maxFlow? maxFlowOut; simp [hfin]
+    rw [hmf]
+    simp only [hbits, hflow]
+
+theorem subStepSortedB_bound_irrelevant (edges : List (Nat × Nat)) (sorted : List Nat) (k : Nat)
+    (hpre : preOK edges sorted k = true) (hsz : 2 * edges.length + 6 < INV) (b b' : Int) (r : FlowRes)
+    (h : subStepSorted edges sorted k b = .ok r) (hle : r.flow ≤ b') :
+    subStepSortedB edges sorted k b' = (.ok r, min b' r.flow) := by
+  unfold subStepSorted subStepSortedB at h
+  unfold subStepSortedB
+  split at h
+  · cases h
+  · rename_i hk
+    rw [if_neg hk]
+    simp only at h ⊢
+    split at h
+    · cases h
+    · cases h
+    · rename_i flow bits b1 hs
+      split at h
+      · cases h
+      · rename_i hne
+        simp only [StepOut.ok.injEq] at h
+        subst h
+        simp only at hle
+        rw [solve_bound_irrelevant edges sorted k hpre hsz b b' b1 flow bits hs hle]
+        simp only
+        rw [if_neg hne]
+
+/-- **Ok ⇒ the flow does not exceed a non-negative bound** -/
+theorem subStepSorted_ok_le (edges : List (Nat × Nat)) (sorted : List Nat) (k : Nat) (b : Int)
+    (hb : 0 ≤ b) (r : FlowRes) (h : subStepSorted edges sorted k b = .ok r) : r.flow ≤ b := by
+  unfold subStepSorted subStepSortedB at h
+  split at h
+  · cases h
+  · simp only at h
+    split at h
+    · cases h
+    · cases h
+    · rename_i flow bits b1 hs
+      split at h
+      · cases h
+      · simp only [StepOut.ok.injEq] at h
+        subst h
+        simp only
+        rcases solve_ok _ _ _ _ _ hs with ⟨_, rfl, _, _⟩ | ⟨_, _, _, _, _, _, _, _, hle⟩
+        · exact hb
+        · exact hle hb
+
+/-- the two returned lists are non-empty, disjoint sublists of the sorted id list -/
+theorem subStepSorted_sides (edges : List (Nat × Nat)) (sorted : List Nat) (k : Nat) (b : Int)
+    (r : FlowRes) (h : subStepSorted edges sorted k b = .ok r) :
+    r.left ≠ [] ∧ r.right ≠ [] ∧ r.left.Sublist sorted ∧ r.right.Sublist sorted ∧
+    (∀ x, x ∈ r.left → x ∉ r.right) := by
+  unfold subStepSorted subStepSortedB at h
+  split at h
+  · cases h
+  · simp only at h
+    split at h
+    · cases h
+    · cases h
+    · rename_i flow bits b1 hs
+      split at h
+      · cases h
+      · rename_i hne
+        simp only [StepOut.ok.injEq] at h
+        subst h
+        simp only
+        have hsub := partitionIds_sublist (prep edges sorted k).table bits sorted
+        refine ⟨?_, ?_, hsub.1, hsub.2, ?_⟩
+        · intro he; apply hne; left; simp [he]
+        · intro he; apply hne; right; simp [he]
+        · intro x hx hy
+          have a := ((partitionIds_left _ _ _ x).mp hx).2.2
+          have c := ((partitionIds_right _ _ _ x).mp hy).2.2
+          rw [a] at c; cases c
+
 end Tbx.InertialFlow
